@@ -58,7 +58,7 @@ func Fingerprint(k *rsa.PublicKey) int64 {
 // Fault: one deviation from a conformant exchange.
 type Fault struct {
 	// Where: resPQ.nonce resPQ.fingerprints dh.nonce dh.server_nonce dh.kind
-	// inner.nonce inner.server_nonce inner.sha1 inner.content inner.ciphertext gen.nonce gen.server_nonce gen.hash gen.kind reply.kind@N
+	// inner.nonce inner.server_nonce inner.kind inner.sha1 inner.content inner.ciphertext gen.nonce gen.server_nonce gen.hash gen.kind reply.kind@N
 	Where string
 	// How: flip:<bit> fresh other zero | none empty swapped | fail retry | truncate-block flip-block:<i> odd-length | unrelated
 	How string
@@ -259,6 +259,14 @@ func (s *Server) Handle(body []byte, msgID int64) [][]byte {
 		in.U32(idDHInner).Raw(s.corrupt("inner.nonce", s.Nonce, s.C.ServerNonce)).Raw(s.corrupt("inner.server_nonce", s.C.ServerNonce, s.Nonce)).
 			I32(s.C.G).Str(s.C.Prime.Bytes()).Str(ga.Bytes()).I32(s.C.ServerTime)
 		answer := in.B
+		switch s.fault("inner.kind") {
+		case "pong": // a well-formed object of another kind, sealed correctly (right SHA-1 prefix)
+			answer = (&tlw.W{}).U32(0x347773c5).I64(1).I64(2).B
+		case "resPQ-like": // another key-exchange constructor in place of server_DH_inner_data
+			answer = (&tlw.W{}).U32(0x3bcbf734).Raw(s.Nonce).Raw(s.C.ServerNonce).Raw(make([]byte, 16)).B
+		case "unregistered":
+			answer = (&tlw.W{}).U32(0xdeadbeef).I64(7).B
+		}
 		prefix := sha(answer)
 		if how := s.fault("inner.sha1"); how != "" {
 			var bit int
